@@ -106,9 +106,12 @@ def tag_events(prog, sg, side):
                     iv = _index_const(f, t)
                     tag = "trace_main" if iv == 0 else ("trace_aux" if iv == 1 else "trace")
             else:
-                # prover side: by enclosing channel method
-                it = f.get("item_name")
-                tag = P_METHODS.get(it)
+                # prover side: by the innermost enclosing channel method (the reseed itself may sit in a private helper it calls)
+                tag = None
+                for ef in reversed(enclosing_chain(sg, n)):
+                    if ef.get("item_name") in P_METHODS:
+                        tag = P_METHODS[ef.get("item_name")]
+                        break
                 if tag == "trace":
                     # main segment commit happens before any aux draw; distinguish by caller context
                     tag = "trace"
